@@ -829,8 +829,11 @@ func (g *gen) faults(h *Ans, nonce uint64, ti *treeInfo, nSibKinds int, pad240 b
 			a.Rtr, a.State = sp(hexOfBig(nm.v)), sp(hexOfBig(st))
 		})
 	}
-	for _, nm := range nearMisses(val(h.State)) {
+	for i, nm := range nearMisses(val(h.State)) {
 		nm := nm
+		if nSibKinds < 4 && i%3 != 0 {
+			continue // quick tier: +1, -10^40, last hex byte; the root family above is complete in both tiers
+		}
 		add("nearmiss:state:"+nm.name, true, false, func(a *Ans) { a.State = sp(hexOfBig(nm.v)) })
 	}
 	// --- roots
@@ -1685,8 +1688,21 @@ func (g *gen) httpCase(h *HTTPIn) {
 	g.rep.Distinct(string(canon))
 	parsed := wireCoq(pw)
 	obs := o.coq()
-	coq := fmt.Sprintf("%s %s %s %s %s %s %s", coqgen.Bool(!noTransport), coqgen.Limbs(big.NewInt(int64(h.Code))),
-		coqgen.Limbs(big.NewInt(int64(delivered))), coqgen.Bool(readOK), parsed, coqgen.Bool(!h.CloseErr), obs)
+	// the delivered bytes, written as core ++ pad^n (a long trailing run of one byte is not spelled out)
+	db := h.Body[:delivered]
+	padn := 0
+	for padn < len(db) && db[len(db)-1-padn] == db[len(db)-1] {
+		padn++
+	}
+	padc := 32
+	if padn < 32 {
+		padn = 0
+	} else {
+		padc = int(db[len(db)-1])
+	}
+	coq := fmt.Sprintf("%s %s %s %s %s %d %d %s %s %s", coqgen.Bool(!noTransport), coqgen.Limbs(big.NewInt(int64(h.Code))),
+		coqgen.Limbs(big.NewInt(int64(delivered))), coqgen.Bool(readOK), g.str(string(db[:len(db)-padn])), padc, padn,
+		parsed, coqgen.Bool(!h.CloseErr), obs)
 	g.addCase(in, "CHttp %d "+coq)
 }
 
